@@ -444,6 +444,62 @@ def r07g(ctx: Context) -> None:
     rule.note(f"{sum(len(v) for v in tainted.values())} tainted names in {len(tainted)} functions; {sinks_checked} sinks inspected")
 
 
+def r07i(ctx: Context) -> None:
+    """A failure line carries document text (rule descriptions quote what they matched).  Text
+    that reaches ``str.format`` / ``%`` as the *template* is parsed for ``{}`` / ``%`` fields: a
+    brace in the document then raises (KeyError / ValueError) outside every callback wrapper, or
+    silently rewrites the line.  Templates must be compile-time constants."""
+    prog = ctx.prog
+    rule = ctx.rule("R07i", "no run-time text is used as a str.format / % template anywhere in the package", 4)
+
+    def constant_text(func: FuncInfo, expr: ast.AST, depth: int = 0) -> bool:
+        if isinstance(expr, ast.Constant) and isinstance(expr.value, str):
+            return True
+        if isinstance(expr, ast.BinOp) and isinstance(expr.op, ast.Add):
+            return constant_text(func, expr.left, depth) and constant_text(func, expr.right, depth)
+        if isinstance(expr, ast.JoinedStr):
+            return all(isinstance(v, ast.Constant) for v in expr.values)
+        if isinstance(expr, ast.Name) and depth < 4:
+            values = [n.value for n in walk_local(func.node) if isinstance(n, ast.Assign) and any(isinstance(t, ast.Name) and t.id == expr.id for t in n.targets)]
+            if values and expr.id not in func.params:
+                return all(constant_text(func, v, depth + 1) for v in values)
+            value = func.module.globals.get(expr.id)
+            return value is not None and not values and expr.id not in func.params and constant_text(func, value, depth + 1)
+        if isinstance(expr, ast.Attribute) and depth < 4:
+            owner = prog.infer(func, expr.value)
+            klass = owner[1] if owner and owner[0] in ("cls", "type") else None
+            value = klass.class_attrs.get(expr.attr) if klass is not None else None
+            return value is not None and constant_text(func, value, depth + 1)
+        return False
+
+    for func in prog.functions.values():
+        for node in walk_local(func.node):
+            template = None
+            if isinstance(node, ast.Call) and isinstance(node.func, ast.Attribute) and node.func.attr in ("format", "format_map"):
+                owner = prog.infer(func, node.func.value)
+                if owner is None or owner[0] == "str" or isinstance(node.func.value, (ast.Constant, ast.JoinedStr, ast.BinOp)):
+                    template = node.func.value
+            elif isinstance(node, ast.BinOp) and isinstance(node.op, ast.Mod):
+                owner = prog.infer(func, node.left)
+                if (owner and owner[0] == "str") or isinstance(node.left, (ast.Constant, ast.JoinedStr)) and isinstance(getattr(node.left, "value", ""), str):
+                    template = node.left
+            if template is None:
+                continue
+            key = func_key(func, node) + " [template]"
+            if constant_text(func, template):
+                rule.ok(key, "constant template")
+            else:
+                rule.fail(key, where(func, node), f"'{norm(template)[:90]}' is used as a format template although it is built at run time: a brace or percent sign in document text raises inside the reporter or rewrites the line")
+    # the printers themselves: the line is assembled with f-strings / concatenation
+    for class_qual in ("pymarkdown.general.main_presentation.MainPresentation", "pymarkdown.api._ApiPresentation"):
+        klass = prog.classes.get(class_qual)
+        if klass is None:
+            raise AnalysisError(f"anchor class not found: {class_qual}")
+        for name, method in sorted(klass.methods.items()):
+            if name.startswith("print_"):
+                rule.ok(f"{method.short}: assembled without a template", "f-strings / concatenation only (any template use is listed above)")
+
+
 def run(ctx: Context) -> None:
     common.callbacks_contained(ctx, "R07a")
     common.callbacks_only_from_manager(ctx, "R07b")
@@ -451,6 +507,7 @@ def run(ctx: Context) -> None:
     r07d(ctx)
     r07e(ctx)
     r07g(ctx)
+    r07i(ctx)
     from sa.rules import c13
 
     # "two scans of the same input print the same thing", also inside one process: rule state is reset per file
